@@ -129,6 +129,13 @@ func (enc *Encoder) validQuoted(s string) bool {
 }
 
 func (enc *Encoder) stringLiteral(s string) {
+	if enc.err != nil {
+		// Nothing more can be sent, e.g. because the server has refused a
+		// previous literal: don't expect a continuation request and don't
+		// leave the literal's data behind in the buffer
+		return
+	}
+
 	var sync *ContinuationRequest
 	if enc.side == ConnSideClient && (!enc.LiteralMinus || len(s) > 4096) && !enc.LiteralPlus {
 		if enc.NewContinuationRequest != nil {
@@ -258,6 +265,9 @@ func (enc *Encoder) UID(uid imap.UID) *Encoder {
 func (enc *Encoder) Literal(size int64, sync *ContinuationRequest) io.WriteCloser {
 	if sync != nil && enc.side == ConnSideServer {
 		panic("imapwire: sync must be nil on a server-side Encoder.Literal")
+	}
+	if enc.err != nil {
+		return errorWriter{enc.err}
 	}
 
 	// TODO: literal8
